@@ -9,10 +9,12 @@ require (
 	golang.org/x/crypto v0.38.0
 	golang.org/x/tools v0.29.0
 	lukechampine.com/blake3 v1.2.1
+	modernc.org/mathutil v1.6.0
 )
 
 require (
 	github.com/klauspost/cpuid/v2 v2.2.5 // indirect
+	github.com/remyoudompheng/bigfft v0.0.0-20230129092748-24d4a6f8daec // indirect
 	golang.org/x/mod v0.22.0 // indirect
 	golang.org/x/sync v0.14.0 // indirect
 	golang.org/x/sys v0.33.0 // indirect
